@@ -68,6 +68,7 @@ package serf
 //@ }
 
 //@ func (s *Serf) handleNodeJoinIntent(joinMsg *messageJoin) (rebroadcast bool)
+//@   logcalls
 //@   requires wf: wfMembers(s) && joinMsg != nil
 //@   oldlet m0, known0 := s.members[joinMsg.Node]
 //@   oldlet it0, buffered0 := s.recentIntents[joinMsg.Node]
@@ -188,6 +189,7 @@ package serf
 //@ end
 
 //@ func (s *Serf) handleNodeLeaveIntent(leaveMsg *messageLeave) (rebroadcast bool)
+//@   logcalls
 //@   requires wf: wfSerf(s) && leaveMsg != nil
 //@   oldlet m0, known0 := s.members[leaveMsg.Node]
 //@   oldlet it0, buffered0 := s.recentIntents[leaveMsg.Node]
@@ -493,6 +495,7 @@ package serf
 //@ }
 
 //@ func (s *Serf) handleUserEvent(eventMsg *messageUserEvent) (rebroadcast bool)
+//@   logcalls
 //@   requires wf: wfEvents(s) && eventMsg != nil
 //@   case wrap_at_max: uint64(eventMsg.LTime) == maxU64()
 //@   oldlet seen0 := slotHas(s, eventMsg.LTime, eventMsg.Name, eventMsg.Payload)
@@ -628,6 +631,28 @@ package serf
 // query responses are handled under their own contract (C07)
 //@ func (s *Serf) handleQueryResponse(resp *messageQueryResponse)
 //@   trusted
+//@ end
+
+// ---------------------------------------------------------------- gossip re-broadcast decision (C04)
+
+//@ func (d *delegate) NotifyMsg(buf []byte)
+//@   requires wf: d != nil && d.serf != nil && wfSerf(d.serf) && wfEvents(d.serf) && wfQueries(d.serf) && hasMember(d.serf, d.serf.config.NodeName)
+//@   oldlet q0 := logN("queued")
+//@   oldlet c0 := callN()
+//@   let queued := logN("queued") - q0
+//@   let handled := callN() - c0
+//@   # at most one handler runs per message and at most one re-broadcast is queued
+//@   ensures at_most_one [C04]: 0 <= queued && queued <= 1 && 0 <= handled && handled <= 1
+//@   # the message is queued for re-broadcast exactly when its handler asked for it
+//@   ensures rebroadcast_iff_handler_says_so [C04]: (queued == 1) == (handled == 1 && callRet(c0))
+//@   # ... on the queue of its kind, byte for byte the same length
+//@   ensures right_queue [C04]: queued == 1 ==> logAt[int]("queuedlen", q0) == len(buf) &&
+//@       logAt[*memberlist.TransmitLimitedQueue]("queued", q0) ==
+//@         ite(callIs(c0, "Serf.handleUserEvent"), d.serf.eventBroadcasts, ite(callIs(c0, "Serf.handleQuery"), d.serf.queryBroadcasts, d.serf.broadcasts))
+//@   # only intents, user events and queries are ever re-broadcast (responses and relays are not)
+//@   ensures only_gossip_kinds [C04]: handled == 1 ==> callIs(c0, "Serf.handleNodeLeaveIntent") || callIs(c0, "Serf.handleNodeJoinIntent") ||
+//@       callIs(c0, "Serf.handleUserEvent") || callIs(c0, "Serf.handleQuery")
+//@   ensures empty_ignored [C04,C09]: len(buf) == 0 ==> queued == 0 && handled == 0
 //@ end
 
 // END-OF-CONTRACTS
